@@ -138,6 +138,13 @@ theorem sound (n : Nat) (fuel : Nat) :
             have hr0 : c.readers = 0 := by simpa [hh] using hr
             simp only [exec, hr0, if_true] at hex
             exact ih1 rest _ ch lp _ r o ch' ⟨hu, hr, hc⟩ hchk hex
+        | wait =>
+          by_cases hh : s.held = true
+          · simp [checkS, hh] at hchk
+          · simp only [checkS, hh, Bool.false_eq_true, if_false] at hchk
+            have hr0 : c.readers = 0 := by simpa [hh] using hr
+            simp only [exec, hr0, if_true] at hex
+            exact ih1 rest _ ch lp _ r o ch' ⟨hu, hr, hc⟩ hchk hex
         | ifs body =>
           have hne : checkS lp (.ifs body) s ≠ none := by
             intro e; rw [e] at hchk; simp at hchk
